@@ -74,6 +74,7 @@ package alephium
 //@   props C11
 //@   ensures [accept-iff-fits] err == nil <==> fitsMsg(fs)
 //@   ensures [reject-nil] err != nil ==> m == nil
+//@   ensures [fresh] err == nil ==> fresh(m) && allocated(m)
 //@   ensures [sender] err == nil ==> (forall i in 0..32 :: at32(m.senderId, i) == bytevecval(fs[0])[i])
 //@   ensures [numbers] err == nil ==> m.targetChainId == u256val(fs[1]) && m.Sequence == u256val(fs[2]) && m.consistencyLevel == u256val(fs[5])
 //@   ensures [nonce] err == nil ==> m.nonce == be32at(bytevecval(fs[3]), 0)
@@ -145,3 +146,142 @@ package alephium
 //@   props C11
 //@   ensures [decodable] len(hexs(bytes32(b))) == 64 && hexok(hexs(bytes32(b)))
 //@   ensures [inverse] forall i in 0..32 :: unhex(hexs(bytes32(b)))[i] == at32(b, i)
+
+// ---------------------------------------------------------------- node API client (assumed contracts)
+// The Alephium full node is the environment: every answer is an arbitrary value; the only
+// thing assumed is the shape of a successful answer (non-nil result). Listed as trusted.
+
+//@ func (c *Client) GetCurrentHeight(ctx context.Context, chainIndex *ChainIndex) (h *int32, err error)
+//@   assume-contract
+//@   ensures (err == nil) == (h != nil)
+//@ func (c *Client) GetBlockHeader(ctx context.Context, hash string) (h *sdk.BlockHeaderEntry, err error)
+//@   assume-contract
+//@   ensures (err == nil) == (h != nil)
+//@ func (c *Client) IsBlockInMainChain(ctx context.Context, hash string) (b *bool, err error)
+//@   assume-contract
+//@   ensures (err == nil) == (b != nil)
+//@ func (c *Client) GetContractEvents(ctx context.Context, contractAddress string, from int32, group int32) (e *sdk.ContractEvents, err error)
+//@   assume-contract
+//@   ensures (err == nil) == (e != nil)
+//@ func (c *Client) GetEventsByTxId(ctx context.Context, txId string) (e *sdk.ContractEventsByTxId, err error)
+//@   assume-contract
+//@   ensures (err == nil) == (e != nil)
+//@ func (c *Client) GetContractEventsCount(ctx context.Context, contractAddress string) (n *int32, err error)
+//@   assume-contract
+//@   ensures (err == nil) == (n != nil)
+//@ func (c *Client) GetTransactionStatus(ctx context.Context, txId string) (s *sdk.TxStatus, err error)
+//@   assume-contract
+//@   ensures (err == nil) == (s != nil)
+//@ func (c *Client) MultiCallContract(ctx context.Context, multiCall *sdk.MultipleCallContract) (r *sdk.MultipleCallContractResult, err error)
+//@   assume-contract
+//@   ensures (err == nil) == (r != nil)
+
+// ---------------------------------------------------------------- finality (C08)
+
+//@ func maxUint8(a uint8, b uint8) (m uint8)
+//@   props C08
+//@   ensures [max] m >= a && m >= b && (m == a || m == b)
+//@   nopanic
+
+//@ func getConfirmationDuration(isMainnet bool, isTransferTokenVAA bool, cl uint8) (d int64)
+//@   props C08
+//@   ensures [mainnet-transfer-floor] isMainnet && isTransferTokenVAA ==> d == (cl >= 205 ? cl : 205) * 16000
+//@   ensures [otherwise] !(isMainnet && isTransferTokenVAA) ==> d == cl * 16000
+//@   nopanic
+
+// finalNow: enough blocks on top and enough wall-clock time since the block's timestamp
+//@ pred isTransfer(m *WormholeMessage) = len(m.payload) > 0 && m.payload[0] == 1
+//@ pred finalNow(e *UnconfirmedEvent, h *sdk.BlockHeaderEntry, nowMs int64, height int32, mainnet bool) = h.Height + e.msg.consistencyLevel <= height
+//@   | && h.Timestamp + (mainnet && isTransfer(e.msg) ? (e.msg.consistencyLevel >= 205 ? e.msg.consistencyLevel : 205) : e.msg.consistencyLevel) * 16000 <= nowMs
+
+//@ func isEventConfirmed(logger *zap.Logger, e *UnconfirmedEvent, h *sdk.BlockHeaderEntry, nowMs int64, height int32, mainnet bool) (ok bool)
+//@   props C08
+//@   requires e != nil && e.msg != nil && h != nil && e.ContractEvent != nil
+//@   requires [no-overflow] h.Height <= 2000000000 && 0 <= h.Timestamp && h.Timestamp <= 4000000000000000
+//@   ensures [iff-final] ok <==> finalNow(e, h, nowMs, height, mainnet)
+//@   nopanic
+
+//@ func (w *Watcher) handleConfirmedEvents(logger *zap.Logger, confirmed []*ConfirmedEvent) (err error)
+//@   props C08
+//@   requires w != nil && (forall i in 0..len(confirmed) :: confirmed[i] != nil && confirmed[i].event != nil && confirmed[i].event.msg != nil && confirmed[i].event.ContractEvent != nil && confirmed[i].header != nil && confirmed[i].header.Timestamp >= 0)
+//@   modifies chan:*common.MessagePublication, fresh common.MessagePublication.*
+//@   at [w.msgChan <- e.event.msg.toMessagePublication(e.header)]: assert [only-token-bridge-sender] e.event.msg.senderId == w.tokenBridgeContractId && e.event.EventIndex == 0
+//@   loop [range confirmed]:
+//@     iter-ensures [at-most-one-message-per-event] nsent(w.msgChan) <= old(nsent(w.msgChan)) + 1
+
+// wfEvent / wfPending: shape of the pending table (events carry their decoded message)
+//@ pred wfEvent(e *UnconfirmedEvent) = e != nil && allocated(e) && e.msg != nil && allocated(e.msg) && e.ContractEvent != nil && allocated(e.ContractEvent)
+//@ pred wfBlock(b *UnconfirmedEventsPerBlock) = b != nil && allocated(b) && (forall i in 0..len(b.events) :: wfEvent(b.events[i])) && (b.header != nil ==> saneHeader(b.header))
+//@ pred wfPending(m map[string]*UnconfirmedEventsPerBlock) = m != nil && (forall h in dom(m) :: wfBlock(m[h]))
+// saneHeader: heights and timestamps the node reports are far from the int32 / int64 limits
+//@ pred saneHeader(h *sdk.BlockHeaderEntry) = allocated(h) && 0 <= h.Height && h.Height <= 2000000000 && 0 <= h.Timestamp && h.Timestamp <= 4000000000000000
+
+// handleEvents_: one goroutine consuming fetched events and height ticks. Every message
+// handed to `handler` (handleConfirmedEvents) in a tick is final at that tick and comes from
+// a block the node reported canonical in that same tick; an event is either kept pending or
+// leaves pendingEvents (forwarded or dropped) - never both, so the polling path forwards a
+// fetched event at most once.
+//@ func (w *Watcher) handleEvents_(ctx context.Context, logger *zap.Logger, isBlockInMainChain func(string) (*bool, error), getBlockHeader func(string) (*sdk.BlockHeaderEntry, error), handler func(*zap.Logger, []*ConfirmedEvent) error, errC chan<- error, eventsC <-chan []*UnconfirmedEvent, heightC <-chan int32)
+//@   props C08
+//@   requires w != nil && w.blockPollerEnabled != nil
+//@   modifies *
+//@   fnspec isBlockInMainChain: nonnil-on-success
+//@   fnspec getBlockHeader: nonnil-on-success
+//@   fnspec handler: nonnil-on-success
+//@   at [events := <-eventsC]: assume-env [fetched-events-are-decoded] forall i in 0..len(events) :: wfEvent(events[i])
+//@   at [blockEvents.header = blockHeader]: assume-env [node-reports-sane-header] saneHeader(blockHeader)
+//@   at [confirmedEvents = append(confirmedEvents, &ConfirmedEvent{ event: event, header: blockEvents.header, })]: assert [only-final-and-canonical] *isCanonical && finalNow(event, blockEvents.header, now, height, w.isMainnet)
+//@   at [remain = append(remain, event)]: assert [kept-only-if-not-final] !finalNow(event, blockEvents.header, now, height, w.isMainnet)
+//@   loop [for]:
+//@     invariant [pending] wfPending(pendingEvents)
+//@     invariant [watcher] w != nil && w.blockPollerEnabled != nil
+//@   loop [range events]:
+//@     invariant [pending] wfPending(pendingEvents)
+//@   loop [range pendingEvents]:
+//@     invariant [pending] wfPending(pendingEvents)
+//@   loop [range blockEvents.events]:
+//@     invariant [remain] forall k in 0..len(remain) :: wfEvent(remain[k])
+//@     iter-ensures [forwarded-or-kept-never-both] (len(remain) == old(len(remain)) + 1 && len(confirmedEvents) == old(len(confirmedEvents))) || (len(remain) == old(len(remain)) && len(confirmedEvents) <= old(len(confirmedEvents)) + 1)
+
+// ---------------------------------------------------------------- page conversion (C08, C09)
+
+//@ pred isAttestPayload(p []byte) = len(p) > 0 && p[0] == 2
+//@ func (w *Watcher) toUnconfirmedEvent(event *sdk.ContractEvent) (u *UnconfirmedEvent, err error)
+//@   props C08 C09
+//@   requires event != nil
+//@   ensures [accept-iff-well-formed] err == nil <==> event.EventIndex == 0 && fitsMsg(event.Fields)
+//@   ensures [decoded] err == nil ==> u != nil && fresh(u) && u.ContractEvent == event && u.msg != nil && fresh(u.msg) && u.msg.payload == bytevecval(event.Fields[4])
+//@   ensures [reject-nil] err != nil ==> u == nil
+//@   modifies fresh lib:big.Int.v, fresh cell:uint8, fresh cell:Byte32, fresh WormholeMessage.*, fresh UnconfirmedEvent.*
+//@   nopanic
+
+//@ func (w *Watcher) validateAttestToken(ctx context.Context, msg *WormholeMessage) (err error)
+//@   props C08
+//@   requires w != nil && w.client != nil && msg != nil
+//@   modifies fresh TokenInfo.*, fresh lib:big.Int.v, fresh cell:uint8, fresh cell:string, fresh sdk.MultipleCallContract.*
+//@   at [return nil]: assert [attested-equals-what-the-token-reports] tokenInfo != nil && tokenInfoFromChain != nil && *tokenInfo == *tokenInfoFromChain
+
+// A page of events: a malformed or foreign event never fails the page and never removes
+// its neighbours; a well-formed non-attestation event is always kept (one per iteration).
+//@ func (w *Watcher) handleUnconfirmedEvents(ctx context.Context, logger *zap.Logger, events *sdk.ContractEvents) (out []*UnconfirmedEvent, err error)
+//@   props C08 C09
+//@   requires w != nil && w.client != nil && events != nil
+//@   ensures [bad-events-never-fail-the-page] err == nil
+//@   ensures [decoded] forall k in 0..len(out) :: wfEvent(out[k])
+//@   modifies fresh TokenInfo.*, fresh lib:big.Int.v, fresh cell:uint8, fresh cell:string, fresh cell:Byte32, fresh sdk.MultipleCallContract.*, fresh WormholeMessage.*, fresh UnconfirmedEvent.*, fresh sdk.ContractEvent.*
+//@   replay alephium_page.go.tmpl
+//@   at [unconfirmedEvents = append(unconfirmedEvents, unconfirmed)]: assert [attestations-validated] isAttestPayload(unconfirmed.msg.payload) ==> err == nil
+//@   loop [range events.Events]:
+//@     invariant [decoded] forall k in 0..len(unconfirmedEvents) :: wfEvent(unconfirmedEvents[k])
+//@     invariant [self] w != nil && w.client != nil && allocated(w)
+//@     iter-ensures [well-formed-transfer-kept] event.EventIndex == 0 && fitsMsg(event.Fields) && !isAttestPayload(bytevecval(event.Fields[4])) ==> len(unconfirmedEvents) == old(len(unconfirmedEvents)) + 1
+//@     iter-ensures [at-most-one-per-event] len(unconfirmedEvents) <= old(len(unconfirmedEvents)) + 1 && len(unconfirmedEvents) >= old(len(unconfirmedEvents))
+
+// GetTokenInfo: whatever the node reports about the token contract, no panic.
+//@ func (c *Client) GetTokenInfo(ctx context.Context, tokenId Byte32) (t *TokenInfo, err error)
+//@   props C09
+//@   requires c != nil
+//@   ensures [result-or-error] (err == nil) == (t != nil)
+//@   modifies fresh TokenInfo.*, fresh lib:big.Int.v, fresh cell:uint8, fresh cell:string, fresh sdk.MultipleCallContract.*
+//@   nopanic
+//@   replay alephium_tokeninfo.go.tmpl
